@@ -13,6 +13,8 @@ import (
 	"fmt"
 	"io"
 	"os"
+	"runtime"
+	"runtime/debug"
 	"sort"
 	"strings"
 	"testing"
@@ -29,8 +31,10 @@ type c03param struct {
 	Parts   []int  `json:"parts"`            // sizes of batches 0..n-1 of the first stream
 	Perm    []int  `json:"perm"`             // arrival order of the batch numbers
 	Parts2  []int  `json:"parts2,omitempty"` // second stream (concat, pool, pairto)
+	Perm2   []int  `json:"perm2,omitempty"`  // arrival order of the second stream (default: in order)
 	Workers int    `json:"workers,omitempty"`
 	Size    int    `json:"size,omitempty"`
+	Cfg     []int  `json:"cfg,omitempty"`     // fragments-len: minsize, length, overlap, length of the first record
 	Choices []int  `json:"choices,omitempty"` // schedule (replay)
 	Policy  int    `json:"policy"`
 	Bound   int    `json:"preemption_bound"`
@@ -105,6 +109,13 @@ func c03total(parts []int) int {
 		t += p
 	}
 	return t
+}
+
+func c03perm2(p c03param) []int {
+	if len(p.Perm2) == len(p.Parts2) && len(p.Perm2) > 0 {
+		return p.Perm2
+	}
+	return c03identity(p.Parts2)
 }
 
 func c03identity(p []int) []int {
@@ -182,20 +193,20 @@ func c03body(p c03param) c03obs {
 		return c03obs{Out: [][]c03batch{c03drain(c03source("r", p.Parts, p.Perm, 4).FilterEmpty())}}
 	case "concat":
 		a := c03source("r", p.Parts, p.Perm, 4)
-		b := c03source("s", p.Parts2, c03identity(p.Parts2), 4)
+		b := c03source("s", p.Parts2, c03perm2(p), 4)
 		return c03obs{Out: [][]c03batch{c03drain(a.Concat(b))}}
 	case "concat3":
 		a := c03source("r", p.Parts, p.Perm, 4)
-		b := c03source("s", p.Parts2, c03identity(p.Parts2), 4)
+		b := c03source("s", p.Parts2, c03perm2(p), 4)
 		c := c03source("t", []int{1}, []int{0}, 4)
 		return c03obs{Out: [][]c03batch{c03drain(a.Concat(b, c))}}
 	case "concat-sort":
 		a := c03source("r", p.Parts, p.Perm, 4)
-		b := c03source("s", p.Parts2, c03identity(p.Parts2), 4)
+		b := c03source("s", p.Parts2, c03perm2(p), 4)
 		return c03obs{Out: [][]c03batch{c03drain(a.Concat(b).SortBatches())}}
 	case "pool":
 		a := c03source("r", p.Parts, p.Perm, 4)
-		b := c03source("s", p.Parts2, c03identity(p.Parts2), 4)
+		b := c03source("s", p.Parts2, c03perm2(p), 4)
 		return c03obs{Out: [][]c03batch{c03drain(a.Pool(b))}}
 	case "divideon":
 		tr, fa := c03source("r", p.Parts, p.Perm, 4).DivideOn(c03even, p.Size)
@@ -241,11 +252,11 @@ func c03body(p c03param) c03obs {
 		return o
 	case "pairto":
 		a := c03source("r", p.Parts, p.Perm, 4)
-		b := c03source("s", p.Parts2, c03identity(p.Parts2), 4)
+		b := c03source("s", p.Parts2, c03perm2(p), 4)
 		return c03obs{Out: [][]c03batch{c03drain(a.PairTo(b))}}
 	case "pairedwith":
 		a := c03source("r", p.Parts, p.Perm, 4)
-		b := c03source("s", p.Parts2, c03identity(p.Parts2), 4)
+		b := c03source("s", p.Parts2, c03perm2(p), 4)
 		return c03obs{Out: [][]c03batch{c03drain(a.PairTo(b).PairedWith())}}
 	case "fragments":
 		return c03obs{Out: [][]c03batch{c03drain(IFragments(6, 4, 1, p.Size, p.Workers)(c03source("r", p.Parts, p.Perm, 9)))}}
@@ -335,9 +346,153 @@ func c03body(p c03param) c03obs {
 		w2 := func(sl obiseq.BioSequenceSlice) (obiseq.BioSequenceSlice, error) { return sl, nil }
 		it := c03source("r", p.Parts, p.Perm, 4).MakeIWorker(w1, false, p.Workers).MakeISliceWorker(w2, false, 2).FilterOn(c03even, p.Size, 1)
 		return c03obs{Out: [][]c03batch{c03drain(it)}}
+	case "paired-chain", "paired-divide":
+		// paired reads through the combinators a command puts between CLIReadBioSequences(--paired-with)
+		// and CLIWriteBioSequences: the writer asks IsPaired() to decide whether the mates are written
+		a := c03source("r", p.Parts, p.Perm, 4)
+		b := c03source("s", p.Parts2, c03perm2(p), 4)
+		note := ""
+		flag := func(stage string, it IBioSequence) IBioSequence {
+			if !it.IsPaired() && note == "" {
+				note = "IsPaired() is false after " + stage
+			}
+			return it
+		}
+		w := func(s *obiseq.BioSequence) (obiseq.BioSequenceSlice, error) {
+			s.SetAttribute("seen", true)
+			return obiseq.BioSequenceSlice{s}, nil
+		}
+		it := flag("PairTo", a.PairTo(b))
+		it = flag("MakeIWorker", it.MakeIWorker(w, false, p.Workers))
+		if p.Scn == "paired-chain" {
+			it = flag("FilterOn", it.FilterOn(c03even, p.Size, 1))
+			return c03obs{Out: [][]c03batch{c03drain(it)}, Note: note}
+		}
+		tr, fa := it.DivideOn(c03even, p.Size)
+		flag("DivideOn (selected)", tr)
+		flag("DivideOn (discarded)", fa)
+		var fout []c03batch
+		done := vsched.Make[*vsched.Chan[int]]()
+		vsched.Go(func() { fout = c03drain(fa); done.Send(1) })
+		tout := c03drain(tr)
+		done.Recv()
+		return c03obs{Out: [][]c03batch{tout, fout}, Note: note}
+	case "paired-flags":
+		// IsPaired() of the result of every combinator a command may put behind a paired reader (the flag is
+		// what makes CLIWriteBioSequences write the mates): one small paired stream through each of them
+		mk := func() IBioSequence {
+			a := c03source("r", p.Parts, p.Perm, 4)
+			a.MarkAsPaired()
+			return a
+		}
+		idw := func(s *obiseq.BioSequence) (obiseq.BioSequenceSlice, error) { return obiseq.BioSequenceSlice{s}, nil }
+		idsw := func(sl obiseq.BioSequenceSlice) (obiseq.BioSequenceSlice, error) { return sl, nil }
+		yes := func(s *obiseq.BioSequence) bool { return true }
+		stages := []struct {
+			name string
+			f    func(IBioSequence) IBioSequence
+		}{
+			{"SortBatches", func(i IBioSequence) IBioSequence { return i.SortBatches() }},
+			{"Rebatch", func(i IBioSequence) IBioSequence { return i.Rebatch(1) }},
+			{"FilterEmpty", func(i IBioSequence) IBioSequence { return i.FilterEmpty() }},
+			{"MakeIWorker", func(i IBioSequence) IBioSequence { return i.MakeIWorker(idw, false, 2) }},
+			{"MakeISliceWorker", func(i IBioSequence) IBioSequence { return i.MakeISliceWorker(idsw, false, 2) }},
+			{"MakeIConditionalWorker", func(i IBioSequence) IBioSequence { return i.MakeIConditionalWorker(yes, idw, false, 2) }},
+			{"FilterOn", func(i IBioSequence) IBioSequence { return i.FilterOn(yes, 2, 2) }},
+			{"FilterAnd", func(i IBioSequence) IBioSequence { return i.FilterAnd(yes, 2, 2) }},
+			{"Split", func(i IBioSequence) IBioSequence { return i.Split() }},
+			{"CompleteFileIterator", func(i IBioSequence) IBioSequence { return i.CompleteFileIterator() }},
+			{"Concat", func(i IBioSequence) IBioSequence { return i.Concat(mk()) }},
+			{"Pool", func(i IBioSequence) IBioSequence { return i.Pool(mk()) }},
+			{"Pipe(WorkerPipe)", func(i IBioSequence) IBioSequence { return i.Pipe(WorkerPipe(idw, false, 1)) }},
+			{"Speed", func(i IBioSequence) IBioSequence { return i.Speed("verif") }},
+		}
+		note := ""
+		total := 0
+		// Size 0 / 1: first / second half of the list (two jobs of moderate size instead of one big one)
+		half := len(stages) / 2
+		if p.Size == 0 {
+			stages = stages[:half]
+		} else {
+			stages = stages[half:]
+		}
+		for _, st := range stages {
+			out := st.f(mk())
+			if !out.IsPaired() && note == "" {
+				note = "IsPaired() is false after " + st.name + " of a paired stream"
+			}
+			for _, b := range c03drain(out) {
+				total += len(b.Ids)
+			}
+		}
+		if p.Size == 1 {
+			tr, fa := mk().DivideOn(c03even, 2)
+			if !(tr.IsPaired() && fa.IsPaired()) && note == "" {
+				note = "IsPaired() is false after DivideOn of a paired stream"
+			}
+			dd := vsched.Make[*vsched.Chan[int]]()
+			vsched.Go(func() { c03drain(fa); dd.Send(1) })
+			c03drain(tr)
+			dd.Recv()
+			first, second := mk().CopyTee()
+			if !(first.IsPaired() && second.IsPaired()) && note == "" {
+				note = "IsPaired() is false after CopyTee of a paired stream"
+			}
+			done := vsched.Make[*vsched.Chan[int]]()
+			vsched.Go(func() { c03drain(second); done.Send(1) })
+			c03drain(first)
+			done.Recv()
+		}
+		return c03obs{Out: [][]c03batch{{}}, Keys: []int{total, len(stages)}, Note: note}
+	case "worker-fatal", "worker-skip":
+		// a worker that fails on record r1: breakOnError stops the command (log.Fatal, every schedule),
+		// otherwise the record is left out and every other record is delivered
+		w := func(s *obiseq.BioSequence) (obiseq.BioSequenceSlice, error) {
+			if s.Id() == "r1" {
+				return nil, fmt.Errorf("cannot process %s", s.Id())
+			}
+			return obiseq.BioSequenceSlice{s}, nil
+		}
+		return c03obs{Out: [][]c03batch{c03drain(c03source("r", p.Parts, p.Perm, 4).MakeIWorker(w, p.Scn == "worker-fatal", p.Workers))}}
+	case "fragments-len":
+		// fragment sizes around the minsize / length / overlap boundaries: records of Cfg[3] and Cfg[3]+1 bases
+		it := MakeIBioSequence()
+		it.Add(1)
+		vsched.Go(func() { it.WaitAndClose() })
+		var batches []BioSequenceBatch
+		k := 0
+		for b, sz := range p.Parts {
+			sl := obiseq.MakeBioSequenceSlice()
+			for i := 0; i < sz; i++ {
+				sl = append(sl, obiseq.NewBioSequence(fmt.Sprintf("r%d", k), []byte(c03fragBases[k:k+p.Cfg[3]+k]), ""))
+				k++
+			}
+			batches = append(batches, MakeBioSequenceBatch("src", b, sl))
+		}
+		vsched.Go(func() {
+			for _, b := range p.Perm {
+				it.Push(batches[b])
+			}
+			it.Done()
+		})
+		out := IFragments(p.Cfg[0], p.Cfg[1], p.Cfg[2], p.Size, p.Workers)(it)
+		var res []c03batch
+		for out.Next() {
+			b := out.Get()
+			cb := c03batch{Order: b.Order()}
+			for _, s := range b.Slice() {
+				cb.Ids = append(cb.Ids, s.Id())
+				cb.Extra = append(cb.Extra, s.String())
+			}
+			res = append(res, cb)
+		}
+		return c03obs{Out: [][]c03batch{res}}
 	}
 	panic("unknown scenario " + p.Scn)
 }
+
+// a de Bruijn word: no 3 bases occur twice, a fragment cut at a wrong place has a wrong text
+const c03fragBases = "aaacaagaataccacgactagcaggagtatcatgattcccgcctcggcgtctgcttgggtgttt"
 
 // ---- reference model + oracle
 
@@ -436,6 +591,10 @@ func c03classify(got, want []string, ordered bool) string {
 // c03oracle returns (class, description) of a violation, or "".
 func c03oracle(p c03param, o c03obs) (string, string) {
 	if o.Note != "" {
+		if rest, ok := strings.CutPrefix(o.Note, "IsPaired() is false after "); ok {
+			// the key names the combinator that lost the flag
+			return "paired-flag-lost:" + strings.Fields(rest)[0], o.Note
+		}
 		return "error", o.Note
 	}
 	n := c03total(p.Parts)
@@ -602,6 +761,136 @@ func c03oracle(p c03param, o c03obs) (string, string) {
 			return "numbering", m
 		}
 		return "", ""
+	case "paired-chain", "paired-divide":
+		// every delivered record still carries ITS mate (s<k> for r<k>)
+		mates := func(bs []c03batch) string {
+			for _, b := range bs {
+				if len(b.Extra) != len(b.Ids) {
+					return fmt.Sprintf("batch %d: records %v carry the mates %v", b.Order, b.Ids, b.Extra)
+				}
+				for i, id := range b.Ids {
+					if b.Extra[i] != "s"+id[1:] {
+						return fmt.Sprintf("batch %d: record %s carries the mate %s", b.Order, id, b.Extra[i])
+					}
+				}
+			}
+			return ""
+		}
+		if p.Scn == "paired-chain" {
+			if c, d := one(c03filterIds(all, true), true, true, true); c != "" {
+				return c, d
+			}
+			if m := mates(o.Out[0]); m != "" {
+				return "mates", m
+			}
+			return "", ""
+		}
+		if len(o.Out) != 2 {
+			return "wrong", "missing output"
+		}
+		for i, want := range [][]string{c03filterIds(all, true), c03filterIds(all, false)} {
+			got := c03flatten(o.Out[i])
+			if c := c03classify(got, want, true); c != "" {
+				return c, fmt.Sprintf("output %d delivered %v, expected %v", i, got, want)
+			}
+			if m := c03numbering(o.Out[i]); m != "" {
+				return "numbering", fmt.Sprintf("output %d: %s", i, m)
+			}
+			if m := mates(o.Out[i]); m != "" {
+				return "mates", fmt.Sprintf("output %d: %s", i, m)
+			}
+		}
+		return "", ""
+	case "paired-flags":
+		// Concat and Pool (second half) deliver two streams
+		if want := (o.Keys[1] + 2*p.Size) * n; o.Keys[0] != want {
+			return "lost", fmt.Sprintf("%d records delivered by the %d combinators, expected %d", o.Keys[0], o.Keys[1], want)
+		}
+		return "", ""
+	case "worker-skip", "worker-fatal":
+		// worker-fatal reaches the oracle only when the stream holds no r1 (see the outcome check)
+		var want []string
+		for _, id := range all {
+			if id != "r1" {
+				want = append(want, id)
+			}
+		}
+		return one(want, true, true, false)
+	case "fragments-len":
+		minsize, length, overlap := p.Cfg[0], p.Cfg[1], p.Cfg[2]
+		_ = length
+		if m := c03numbering(o.Out[0]); m != "" {
+			return "numbering", m
+		}
+		s := append([]c03batch{}, o.Out[0]...)
+		sort.SliceStable(s, func(i, j int) bool { return s[i].Order < s[j].Order })
+		var ids, seqs []string
+		for _, b := range s {
+			ids = append(ids, b.Ids...)
+			seqs = append(seqs, b.Extra...)
+		}
+		pos := 0
+		for k := 0; k < n; k++ {
+			src := c03fragBases[k : k+p.Cfg[3]+k]
+			name := fmt.Sprintf("r%d", k)
+			L := len(src)
+			what := fmt.Sprintf("record %s of %d bases (minsize %d, length %d, overlap %d), delivered %v", name, L, minsize, length, overlap, ids)
+			if pos < len(ids) && ids[pos] == name {
+				// delivered whole (the case of the records not longer than minsize; also accepted for a longer one)
+				if seqs[pos] != src {
+					return "wrong:whole-record-text", what
+				}
+				pos++
+				continue
+			}
+			if L <= minsize && !(pos < len(ids) && strings.HasPrefix(ids[pos], name+"_sub[")) {
+				return "lost:short-record", what
+			}
+			end := 0 // bases [0,end) are covered so far
+			prevFrom := -1
+			nf := 0
+			for pos < len(ids) && strings.HasPrefix(ids[pos], name+"_sub[") {
+				var from, to int
+				if c, _ := fmt.Sscanf(ids[pos][len(name):], "_sub[%d..%d]", &from, &to); c != 2 {
+					return "wrong:fragment-name", what
+				}
+				from--
+				if from < 0 || to > L || from >= to {
+					return "wrong:fragment-bounds", what
+				}
+				if seqs[pos] != src[from:to] {
+					return "wrong:fragment-text", fmt.Sprintf("%s: fragment %s holds %q, the record has %q there", what, ids[pos], seqs[pos], src[from:to])
+				}
+				if from <= prevFrom {
+					return "reordered:fragments", what
+				}
+				if nf == 0 && from != 0 {
+					return "lost:bases-before-first-fragment", what
+				}
+				if nf > 0 && from > end {
+					return "lost:gap-between-fragments", what
+				}
+				if nf > 0 && end-from < overlap {
+					return "lost:overlap-shorter-than-asked", what
+				}
+				prevFrom = from
+				if to > end {
+					end = to
+				}
+				nf++
+				pos++
+			}
+			if nf == 0 {
+				return "lost:long-record", what
+			}
+			if end != L {
+				return "lost:bases-after-last-fragment", what
+			}
+		}
+		if pos != len(ids) {
+			return "duplicated", fmt.Sprintf("unexpected records %v in %v", ids[pos:], ids)
+		}
+		return "", ""
 	case "copytee":
 		if len(o.Out) != 2 {
 			return "wrong", "missing output"
@@ -686,6 +975,8 @@ type c03scn struct {
 	sizes    []int
 	nonEmpty bool // only non-empty batches (combinator precondition)
 	noPerm   bool
+	quickN   int // quick tier: at most that many batches (0: the common bound, -1: not in the quick tier); the thorough tier has them all
+	maxN     int // both tiers: at most that many batches (0: the common bound)
 }
 
 func c03scenarios(thorough bool) []c03scn {
@@ -709,10 +1000,17 @@ func c03scenarios(thorough bool) []c03scn {
 		{name: "pool", second: true},
 		{name: "divideon", sizes: []int{1, 2}},
 		{name: "filteron", sizes: []int{2}, workers: w12},
-		{name: "filterand", sizes: []int{2}, workers: w12},
+		{name: "filterand", sizes: []int{2}, workers: w12, quickN: 2}, // same goroutine structure as filteron, used by no command
 		{name: "distribute", sizes: []int{1, 2}},
 		{name: "pairto", second: true},
-		{name: "pairedwith", second: true},
+		// PairedWith is one goroutine behind PairTo (whose own scenario has all partitions): 3-batch streams in the thorough tier only
+		{name: "pairedwith", second: true, quickN: 2},
+		// mates ride on the records: what a combinator can break is the IsPaired() flag (paired-flags, quick) and the
+		// rank alignment inside PairTo (pairto); the paired compositions of obigrep / obimultiplex are thorough only
+		{name: "paired-chain", second: true, sizes: []int{2}, workers: []int{2}, quickN: -1, maxN: 2},
+		{name: "paired-divide", second: true, sizes: []int{1}, workers: []int{2}, quickN: -1, maxN: 2},
+		{name: "worker-fatal", workers: w12},
+		{name: "worker-skip", workers: w12},
 		{name: "fragments", sizes: []int{2}, workers: w12},
 		{name: "completefile"},
 		{name: "batchover", sizes: []int{1, 2}, noPerm: true},
@@ -749,6 +1047,9 @@ func c03params(thorough bool) []c03param {
 				n0 = 0 // a stream without any batch
 			}
 			for n := n0; n <= maxN; n++ {
+				if (!thorough && sc.quickN != 0 && n > sc.quickN) || (sc.maxN > 0 && n > sc.maxN) {
+					continue
+				}
 				min := 0
 				if sc.nonEmpty {
 					min = 1
@@ -766,19 +1067,29 @@ func c03params(thorough bool) []c03param {
 							for _, sz := range szs {
 								p := c03param{Scn: sc.name, Parts: pp, Perm: perm, Workers: w, Size: sz}
 								if sc.second {
-									if sc.name == "pairto" || sc.name == "pairedwith" {
+									if sc.name == "pairto" || sc.name == "pairedwith" || sc.name == "paired-chain" || sc.name == "paired-divide" {
 										// mates: same number of records, its own partition
 										p.Parts2 = []int{k}
 										if k >= 2 {
 											p2 := p
 											p2.Parts2 = []int{1, k - 1}
 											out = append(out, p2)
+											if thorough {
+												// the file of the mates delivers its batches out of order too
+												p2.Perm2 = []int{1, 0}
+												out = append(out, p2)
+											}
 										}
 									} else {
 										for _, p2 := range [][]int{{}, {0}, {1}, {1, 1}} {
 											q := p
 											q.Parts2 = p2
 											out = append(out, q)
+											if thorough && len(p2) == 2 {
+												// every arrival order of the second stream as well
+												q.Perm2 = []int{1, 0}
+												out = append(out, q)
+											}
 										}
 										continue
 									}
@@ -791,17 +1102,68 @@ func c03params(thorough bool) []c03param {
 			}
 		}
 	}
+	// paired-flags: one small stream through every combinator
+	for half := 0; half <= 1; half++ {
+		out = append(out, c03param{Scn: "paired-flags", Parts: []int{1, 1}, Perm: []int{1, 0}, Size: half})
+		if thorough {
+			out = append(out, c03param{Scn: "paired-flags", Parts: []int{2}, Perm: []int{0}, Size: half}, c03param{Scn: "paired-flags", Parts: []int{}, Perm: []int{}, Size: half})
+		}
+	}
+	// fragments-len: record lengths L and L+1 around the minsize / length / overlap boundaries (the cut is
+	// made inside one worker call: one or two batches are enough for the schedule dimension)
+	maxL := 12
+	if thorough {
+		maxL = 17
+	}
+	for ci, cfg := range [][]int{{6, 4, 1}, {3, 5, 2}, {5, 3, 0}, {6, 4, 2}} {
+		if !thorough && ci == 3 {
+			continue
+		}
+		for L := 1; L <= maxL; L++ {
+			for _, parts := range [][]int{{2}, {1, 1}} {
+				if !thorough && len(parts) == 2 && L != 7 {
+					continue
+				}
+				perm := c03identity(parts)
+				if len(parts) == 2 {
+					perm = []int{1, 0}
+				}
+				out = append(out, c03param{Scn: "fragments-len", Parts: parts, Perm: perm, Workers: 2, Size: 2, Cfg: []int{cfg[0], cfg[1], cfg[2], L}})
+			}
+		}
+	}
 	return out
 }
 
+// The explorer identifies memory locations (and, through the happens-before hashes, channels and locks)
+// by address: if the collector frees an object in the middle of an execution and the address is given to
+// another object, the same schedule no longer gives the same trace ("replay diverged", sporadic, seen with
+// the scenarios that start many goroutines). The collector is therefore switched off and run between
+// executions.
+var c03execs int
+
 func c03reset() {
 	obioptions.SetBatchSize(2)
+	c03execs++
+	if c03execs%256 == 0 {
+		runtime.GC()
+	}
 }
 
 func c03run(r *verifkit.Result, p c03param, bound int, mode string, maxExec int64) {
 	cfg := vsched.Config{Name: p.Scn, Preemptions: bound, DelayBounding: mode == "delay", Horizon: 4000, MaxExec: maxExec, NShards: 1,
 		Expired: r.Expired, Reset: c03reset, Full: mode == "full", Policy: p.Policy}
 	cfg.Check = func(x *vsched.Exec) string {
+		if p.Scn == "worker-fatal" && c03total(p.Parts) >= 2 {
+			// record r1 is in the stream: the command must stop (log.Fatal), whatever the schedule
+			if strings.HasPrefix(x.Outcome(), "exit") {
+				return ""
+			}
+			if x.Outcome() == "" {
+				o, _ := x.Obs.(c03obs)
+				return fmt.Sprintf("error-swallowed|the worker failed on r1 with breakOnError set, the stream ended normally and delivered %v", c03flatten(o.Out[0]))
+			}
+		}
 		switch x.Outcome() {
 		case "deadlock":
 			return "deadlock|" + x.Detail()
@@ -835,7 +1197,7 @@ func c03run(r *verifkit.Result, p c03param, bound int, mode string, maxExec int6
 	}
 	if os.Getenv("VERIF_C03_STATS") != "" {
 		fmt.Printf("STATS %s parts=%v perm=%v parts2=%v w=%d size=%d: exec=%d states=%d pruned=%d points=%d maxpoints=%d threads=%d rounds=%d capped=%v nconf=%d outcomes=%v\n",
-			p.Scn, p.Parts, p.Perm, p.Parts2, p.Workers, p.Size, st.Executions, st.States, st.Pruned, st.Points, st.MaxPoints, st.MaxThreads, st.Rounds, st.Capped, len(st.ConflictSites), st.Outcomes)
+			p.Scn+fmt.Sprint(p.Cfg), p.Parts, p.Perm, p.Parts2, p.Workers, p.Size, st.Executions, st.States, st.Pruned, st.Points, st.MaxPoints, st.MaxThreads, st.Rounds, st.Capped, len(st.ConflictSites), st.Outcomes)
 	}
 	for o, n := range st.Outcomes {
 		r.Count("outcome_"+o, n)
@@ -850,8 +1212,8 @@ func c03run(r *verifkit.Result, p c03param, bound int, mode string, maxExec int6
 		q := p
 		q.Choices = v.Choices
 		q.Bound = bound
-		r.Violate("obiiter/"+p.Scn+"/"+class+sub, fmt.Sprintf("%s parts=%v arrival=%v parts2=%v workers=%d size=%d schedule=%v: %s",
-			p.Scn, p.Parts, p.Perm, p.Parts2, p.Workers, p.Size, v.Choices, parts[1]), q)
+		r.Violate("obiiter/"+p.Scn+"/"+class+sub, fmt.Sprintf("%s parts=%v arrival=%v parts2=%v workers=%d size=%d cfg=%v: %s [schedule=%v]",
+			p.Scn, p.Parts, p.Perm, fmt.Sprint(p.Parts2, p.Perm2), p.Workers, p.Size, p.Cfg, parts[1], v.Choices), q)
 	}
 }
 
@@ -860,6 +1222,7 @@ func TestVerifC03A(t *testing.T) {
 	log.StandardLogger().ExitFunc = vsched.Exit
 	r := verifkit.New("C03")
 	defer r.Write()
+	defer debug.SetGCPercent(debug.SetGCPercent(-1))
 
 	if rc := r.ReplayCase(); rc != nil {
 		var p c03param
@@ -905,40 +1268,56 @@ func TestVerifC03A(t *testing.T) {
 	params := c03params(verifkit.Thorough())
 	nb := func(p c03param) int { return len(p.Parts) + len(p.Parts2) }
 	var jobs []job
-	if !verifkit.Thorough() {
-		for _, p := range params {
-			light := map[string]bool{"sort": true, "worker-keep": true, "worker-drop": true, "worker-empty": true, "iworker": true,
-				"condworker": true, "completefile": true, "batchover": true, "merge": true,
-				"copytee": true, "pushback": true, "split2": true, "limitmemory": true, "load": true, "count": true}
-			if light[p.Scn] && len(p.Parts) <= 1 && len(p.Parts2) <= 1 && p.Workers <= 2 {
-				jobs = append(jobs, job{p, "full", -1, 60000})
-			}
+	light := map[string]bool{"sort": true, "worker-keep": true, "worker-drop": true, "worker-empty": true, "iworker": true,
+		"condworker": true, "completefile": true, "batchover": true, "merge": true,
+		"copytee": true, "pushback": true, "split2": true, "limitmemory": true, "load": true, "count": true,
+		"worker-fatal": true, "worker-skip": true}
+	// what the quick tier runs (on ITS parameter set; the thorough tier runs the same on the larger set first)
+	for _, p := range params {
+		if light[p.Scn] && len(p.Parts) <= 1 && len(p.Parts2) <= 1 && p.Workers <= 2 {
+			jobs = append(jobs, job{p, "full", -1, 60000})
 		}
+	}
+	// the two default-scheduler policies as two passes: alternating them would give all jobs of one policy
+	// to the shards of one parity (the second policy is the more expensive one)
+	for pol := 0; pol <= 1; pol++ {
 		for _, p := range params {
-			jobs = append(jobs, job{p, "delay", 1, 20000})
 			q := p
-			q.Policy = 1
+			q.Policy = pol
 			jobs = append(jobs, job{q, "delay", 1, 20000})
 		}
+	}
+	if !verifkit.Thorough() {
 		r.Bound("exploration", "full (unbounded, sleep sets + HB cache) for streams of <= 1 batch; delay bound 1 for every scenario parameter")
 	} else {
+		// the deeper explorations: delay bound 2 for every parameter, full for <= 2 batches, preemption bound 0
+		// for <= 2 batches. They cost far more than the deadline allows for the large streams (a full job of
+		// a 2-batch stream with 3 workers alone reaches its cap of 400000 executions), so they are ordered by
+		// the size of the streams, the scenarios in turn: the deadline cuts the largest streams of every
+		// scenario instead of all streams of the scenarios that come late in the list.
+		var deep []job
 		for _, p := range params {
-			if len(p.Parts) <= 2 && nb(p) <= 3 {
-				jobs = append(jobs, job{p, "full", -1, 400000})
-			}
-		}
-		for _, p := range params {
-			jobs = append(jobs, job{p, "delay", 2, 100000})
+			deep = append(deep, job{p, "delay", 2, 100000})
 			q := p
 			q.Policy = 1
-			jobs = append(jobs, job{q, "delay", 2, 100000})
-		}
-		for _, p := range params {
+			deep = append(deep, job{q, "delay", 2, 100000})
+			if len(p.Parts) <= 2 && nb(p) <= 3 && !(light[p.Scn] && len(p.Parts) <= 1 && len(p.Parts2) <= 1 && p.Workers <= 2) {
+				deep = append(deep, job{p, "full", -1, 400000})
+			}
 			if len(p.Parts) <= 2 {
-				jobs = append(jobs, job{p, "preempt", 0, 100000})
+				deep = append(deep, job{p, "preempt", 0, 100000})
 			}
 		}
-		r.Bound("exploration", "full (unbounded) for streams of <= 2 batches; delay bound 2 for every scenario parameter; preemption bound 0 for <= 2 batches")
+		weight := func(j job) int {
+			w := 100*nb(j.p) + 10*j.p.Workers + c03total(j.p.Parts)
+			if j.mode == "full" {
+				w += 50 // after the bounded explorations of the same stream size
+			}
+			return w
+		}
+		sort.SliceStable(deep, func(a, b int) bool { return weight(deep[a]) < weight(deep[b]) })
+		jobs = append(jobs, deep...)
+		r.Bound("exploration", "first the quick-tier exploration of every parameter (delay bound 1; full for <= 1 batch), then by increasing stream size: delay bound 2, preemption bound 0 and full (<= 2 batches) until the deadline")
 	}
 	if b := os.Getenv("VERIF_C03_BOUND"); b != "" {
 		var bound int
@@ -961,6 +1340,18 @@ func TestVerifC03A(t *testing.T) {
 			}
 			jobs = append(jobs, job{p, mode, bound, capN})
 		}
+	}
+	if f := os.Getenv("VERIF_C03_SCN"); f != "" {
+		// development aid: the regular jobs of some scenarios only
+		var sel []job
+		for _, j := range jobs {
+			for _, name := range strings.Split(f, ",") {
+				if name == j.p.Scn {
+					sel = append(sel, j)
+				}
+			}
+		}
+		jobs = sel
 	}
 	r.Bound("scenario_parameters", len(params))
 	r.Bound("jobs", len(jobs))
